@@ -24,9 +24,15 @@ for nf, tiers in ((1, ("quick", "thorough")), (2, ("quick", "thorough")), (3, ("
       for pre in (0, 1):
         OBLIGATIONS.append(dict(
             name="C20 call tree with %d frame(s), parents %s, %s contract: recorded details come from a matching, non-reverted call to the bridge; none => error, nothing recorded" % (nf, par, "pre-etrog" if pre else "etrog"),
-            harness=B + "ZZVerif_C20_ClaimCalldata", params={"NF": nf, "SHAPE": _enc(par, nf), "PRE": pre}, tiers=tiers, reach=["none"] + (["found"] if nf >= 1 else []),
+            harness=B + "ZZVerif_C20_ClaimCalldata", params={"NF": nf, "SHAPE": _enc(par, nf), "PRE": pre, "MIXED": 0}, tiers=tiers, reach=["none"] + (["found"] if nf >= 1 else []),
             time_limit_s=3000, max_paths=400000,
             bounds="tree shape fixed; per frame: reverted or not, to the bridge or not, asset/message claim, event's global index or another; both contract generations; all field values"))
+for nf, tiers in ((1, ("quick", "thorough")), (2, ("quick", "thorough")), (3, ("thorough",))):
+    for par in _shapes(nf):
+        OBLIGATIONS.append(dict(
+            name="C20 call tree with %d frame(s), parents %s, event of the etrog contract, calls of either contract generation (a 32-bit index matches only an event index that fits)" % (nf, par),
+            harness=B + "ZZVerif_C20_ClaimCalldata", params={"NF": nf, "SHAPE": _enc(par, nf), "PRE": 0, "MIXED": 1}, tiers=tiers, reach=["none", "found"],
+            time_limit_s=3000, max_paths=400000, bounds="as above, four call kinds per bridge frame"))
 ASSUMPTIONS = ["ABI encoding/decoding is an abstract constructor/destructor pair (go-ethereum's packer natively, Arguments.Unpack modelled); "
                "every call addressed to the bridge is a claim call (stated in the property)", "the RPC client is a fake returning the prepared trace"]
 OUTSIDE = "go-ethereum's ABI decoder; JSON decoding of the trace; more than 4 frames"
